@@ -263,6 +263,8 @@ def main(rep, tier):
     rep.configs.append({"features": "async,http", "profile": "debug", "bodies": len(f.bodies)})
     check.guard(rep, "R5", run, f)
     rep.floor("R5", "rule instances", len([i for i in rep.instances if i["status"] == "ok"]), 7)
+    import check as _c
+    _c.witnesses(rep, "C05", f)
     return rep.finish(
         "Hand-off provenance: (buffer, length) pairs passed at each conversion, constructor field initialisation, guard dominance, and the "
         "order discard -> compact -> read free_start on every Ok path of the stream parser's conversions.",
